@@ -5,14 +5,32 @@ IsEvent(e) == l <= NRec /\ Rec[l].ev = e /\ l' = l + 1
 TInit == CInit /\ l = 1
 T_Reset == IsEvent("reset") /\ CReset
 T_Tp == IsEvent("tp") /\ PeerLimit(Rec[l].ep, Rec[l].acid_limit)
+Primary(r) == ~("conn" \in DOMAIN r) \/ r.conn = 0
 T_TxF == IsEvent("txf") /\ LET r == Rec[l] IN
+  IF ~Primary(r) THEN UNCHANGED cvars ELSE
   CASE r.ty = "new_cid" -> TxNewConnectionId(r.ep, r.seq, r.rpt, r.cid, r.token)
     [] r.ty = "retire_cid" -> TxRetire(r.ep, r.seq)
     [] OTHER -> UNCHANGED cvars
 T_RxF == IsEvent("rxf") /\ LET r == Rec[l] IN
+  IF ~Primary(r) THEN UNCHANGED cvars ELSE
   CASE r.ty = "new_cid" -> RxNewConnectionId(r.ep, r.seq)
     [] r.ty = "retire_cid" -> RxRetire(r.ep, r.seq)
     [] OTHER -> UNCHANGED cvars
-TNext == T_Reset \/ T_Tp \/ T_TxF \/ T_RxF
+\* datagrams: handed to the socket by a connection or by the endpoint itself (stateless reset, retry, version negotiation),
+\* then seen on the network in the same order
+T_DgSent == IsEvent("datagram_sent") /\ (IF Primary(Rec[l]) THEN DatagramClosed(Rec[l].ep) ELSE
+               outq' = [outq EXCEPT ![Rec[l].ep] = Append(@, {})] /\ UNCHANGED <<issued, retiredByPeer, maxRpt, limit, peerIssued, seq0, retiring, lastRx, gone>>)
+T_EpSent == IsEvent("endpoint_packet_sent") /\ outq' = [outq EXCEPT ![Rec[l].ep] = Append(@, {})]
+            /\ UNCHANGED <<issued, retiredByPeer, maxRpt, limit, peerIssued, seq0, retiring, lastRx, gone>>
+T_Dg == IsEvent("dg") /\ LET r == Rec[l] IN DatagramSeen(IF r.dir = "c2s" THEN "c" ELSE "s", r.dcid, r.scid)
+T_Rxd == IsEvent("rxd") /\ DatagramReceived(Rec[l].ep, Rec[l].dcid)
+T_Drop == IsEvent("endpoint_datagram_dropped") /\ UnknownDestination(Rec[l].ep)
+\* the peers in these runs are honest (frames may be lost, delayed, retransmitted, duplicated - never invalid): an endpoint that
+\* ends the connection with a transport error of its own finding has misjudged a legitimate frame (e.g. a retransmitted
+\* RETIRE_CONNECTION_ID taken for another sequence number)
+T_Closed == IsEvent("conn_closed") /\ LET r == Rec[l] IN
+              /\ Primary(r) => ~(r.error.kind = "transport" /\ r.error.local)
+              /\ (IF Primary(r) THEN ConnectionGone(r.ep) ELSE UNCHANGED cvars)
+TNext == T_Reset \/ T_Tp \/ T_TxF \/ T_RxF \/ T_DgSent \/ T_EpSent \/ T_Dg \/ T_Rxd \/ T_Drop \/ T_Closed
 TSpec == TInit /\ [][TNext]_<<cvars, l>>
 =============================================================================
